@@ -764,6 +764,9 @@ def instantiate(rng, c, op="map"):
                 bad = True
         if bad:
             continue
+        if c.get("single"):
+            meta["single"] = True
+            return meta
         try:      # Gaussian(cov=<sparse full matrix>) is refused for some SPD matrices without cholmod (C04): redraw
             import cuqi
             for g, d in ((meta["ce"], m), (meta["cx"], n)):
@@ -906,6 +909,19 @@ def probe_geom_fixed(cuqi):
 
 
 def case_map(cuqi, meta, fixed, cell):
+    if meta.get("single"):
+        # Gaussian(cov=<1x1 scipy matrix>) is already refused by the constructor (AttributeError at cov.ravel()); were such an
+        # object to exist MAP would fail the same way (model clause sparse_single).  The cell pins the refusal.
+        try:
+            build_problem(cuqi, meta)
+            obs = "constructed"
+        except Exception as e:
+            obs = err_kind(e)
+        A = np.array(meta["A"], dtype=float)
+        m, n = A.shape
+        expr = "check_map %s %s %s %s %s %s %s %s %s" % (cbool(fixed), cnat(m), cnat(n), cqmat(A.tolist()), cqvec(meta["b"]), cqvec(model_x0(meta, n)),
+                                                       c_gdesc(meta["ce"], m), c_gdesc(meta["cx"], n), c_obs(obs))
+        return Case(expr=expr, meta=meta, cell=cell, kind="DECISION")
     obs, A_eff, m, n, computed, extras, BP = run_map(cuqi, meta)
     fail = map_oracle(cuqi, meta, obs, A_eff, m, n, BP, computed)
     if fail is None and not extras["wrap_ok"]:
@@ -1503,8 +1519,13 @@ def case_ccov(cuqi, meta):
     g = meta["g"]
     d = meta["dim"]
     G = build_gaussian(cuqi, np.zeros(d), g)
-    ret = G.compute_cov()
-    C = np.array(G.cov, dtype=float)
+    try:
+        ret = G.compute_cov()
+        C = np.array(G.cov, dtype=float)
+    except Exception as e:
+        return Case(expr="false", meta=meta, cell="ccov/%s/%s%s" % (g["param"], g["kind"], "/" + g["factor"] if g.get("factor") else ""), kind="EXACT",
+                    impl_fail="compute_cov() followed by .cov raised %r (the getter's own message tells the user to call compute_cov())" % (e,),
+                    signature=SIG_CCOV)
     if not np.all(np.isfinite(C)):
         return Case(expr="false", meta=meta, cell="ccov/%s/%s%s" % (g["param"], g["kind"], "/" + g["factor"] if g.get("factor") else ""), kind="EXACT",
                     impl_fail="compute_cov() cached non-finite values %s" % C.tolist(), signature=SIG_CCOV)
@@ -1868,6 +1889,17 @@ def gen_optns_metas(ctx):
     return out
 
 
+def safe(fn, cuqi, meta, *rest):
+    """a case that cannot even be driven is a disagreement of its own (the other cells still run and give their replays)"""
+    import traceback
+    try:
+        return fn(cuqi, meta, *rest)
+    except Exception:
+        m2 = dict(meta)
+        m2["driver_exception"] = traceback.format_exc()[-1500:]
+        return Case(expr="false", meta=m2, cell="driver-exception/%s" % meta.get("op", "?"), kind="DECISION")
+
+
 def run(ctx):
     import cuqi
     rng = ctx.rng
@@ -1891,17 +1923,17 @@ def run(ctx):
             continue
         for _ in range(reps):
             meta = instantiate(rng, c, "map")
-            cases.append(case_map(cuqi, meta, fixed, cell_name(c, "map")))
+            cases.append(safe(case_map, cuqi, meta, fixed, cell_name(c, "map")))
     if skipped:
         ctx.note("%d closed-form cells (vector noise covariance, m > n+1) left to the witness in the unrepaired state" % skipped)
     # direct sampling: a sub-lattice (each case runs n+2 draws)
-    scells = [c for c in cells if (c["m"], c["n"]) in [(2, 3), (3, 3), (3, 2), (2, 1), (1, 1)]]
+    scells = [c for c in cells if not c.get("single") and (c["m"], c["n"]) in [(2, 3), (3, 3), (3, 2), (2, 1), (1, 1)]]
     if not ctx.thorough:
         scells = scells[::3]
     for c in scells:
         meta = instantiate(rng, c, "sample")
         meta["z"] = [dy(rng, -2, 2, 4) for _ in range(c["n"])]
-        cases.append(case_sample(cuqi, meta, fixed, cell_name(c, "sample")))
+        cases.append(safe(case_sample, cuqi, meta, fixed, cell_name(c, "sample")))
     # optional arguments of the direct sampling route (Nb is documented as unused there; experimental must not change it) and UQ
     base = dict(pe="cov", px="cov", model="dense", geom="default", mean="vec")
     for i, sargs in enumerate([{"Nb": 0}, {"Nb": 2}, {"experimental": True}, {"Nb": 1, "experimental": True},
@@ -1913,25 +1945,25 @@ def run(ctx):
             meta["sargs"] = dict(sargs)
             if meta["sargs"].get("exact") == "zeros":
                 meta["sargs"]["exact"] = [0.0] * n
-            cases.append(case_sample(cuqi, meta, fixed, cell_name(c, "sample") + "/args:" + ",".join(sorted(sargs))))
+            cases.append(safe(case_sample, cuqi, meta, fixed, cell_name(c, "sample") + "/args:" + ",".join(sorted(sargs))))
     for meta in gen_route_metas(ctx):
-        cases.append(case_route(cuqi, meta))
+        cases.append(safe(case_route, cuqi, meta))
     for meta in gen_cascade_metas(ctx):
-        cases.append(case_cascade(cuqi, meta))
+        cases.append(safe(case_cascade, cuqi, meta))
     for meta in gen_handover_metas(ctx):
-        cases.append(case_handover(cuqi, meta))
+        cases.append(safe(case_handover, cuqi, meta))
     for meta in gen_setup_metas(ctx):
-        cases.append(case_setup(cuqi, meta))
+        cases.append(safe(case_setup, cuqi, meta))
     for meta in gen_opt_metas(ctx):
-        cases.append(case_opt(cuqi, meta))
+        cases.append(safe(case_opt, cuqi, meta))
     for meta in gen_ccov_metas(ctx):
-        cases.append(case_ccov(cuqi, meta))
+        cases.append(safe(case_ccov, cuqi, meta))
     for meta in gen_ml_metas(ctx):
-        cases.append(case_ml(cuqi, meta))
+        cases.append(safe(case_ml, cuqi, meta))
     for meta in gen_optng_metas(ctx):
-        cases.append(case_optng(cuqi, meta))
+        cases.append(safe(case_optng, cuqi, meta))
     for meta in gen_optns_metas(ctx):
-        cases.append(case_optng(cuqi, meta))
+        cases.append(safe(case_optng, cuqi, meta))
     return Result(cases=cases, rule=RULE, extra={"repair_state_fixed": fixed},
                   assumptions=["numpy.linalg.solve / inv are modelled by an exact Gauss-Jordan over Qc whose result is checked (M z = b, M X = X M = I) before use; "
                                "observed floats are compared with the exact value to 1e-8 relative (condition numbers of the generated systems < 2e3)",
